@@ -176,8 +176,44 @@ pub proof fn lemma_sasl_codes()
     ensures SaslCode::Ok as u8 == 0, SaslCode::Auth as u8 == 1, SaslCode::Sys as u8 == 2, SaslCode::SysPerm as u8 == 3, SaslCode::SysTemp as u8 == 4,       // [C19.sasl-code.values] [C03.restricted.value-written] [C05.restricted.value-written] AMQP 1.0 part 5, 5.3.3.6 sasl-code: 0 = ok (authentication succeeded), 1 = auth, 2 = sys, 3 = sys-perm, 4 = sys-temp
 {}
 
+// ================================================================ defaults: what an absent (or null) field stands for -- AMQP 1.0 field tables, `default=` attributes
+//@@ enumorder file=fe2o3-amqp-types/src/definitions/snd_settle_mode.rs enum=SenderSettleMode default=mixed noorder `unsettled,settled,mixed` `[C05.default.specification-default] [C03.default.specification-default] attach.snd-settle-mode defaults to mixed (part 2, 2.7.3)`
+//@@ enumorder file=fe2o3-amqp-types/src/definitions/rcv_settle_mode.rs enum=ReceiverSettleMode default=first noorder `first,second` `[C05.default.specification-default] [C03.default.specification-default] attach.rcv-settle-mode defaults to first (part 2, 2.7.3)`
+//@@ enumorder file=fe2o3-amqp-types/src/messaging/term_expiry_policy.rs enum=TerminusExpiryPolicy default=session-end noorder `link-detach,session-end,connection-close,never` `[C05.default.specification-default] [C03.default.specification-default] source / target expiry-policy defaults to session-end (part 3, 3.5.3)`
+pub struct Handle(pub u32);
+pub struct Priority(pub u8);
+pub struct MaxFrameSize(pub u32);
+pub struct ChannelMax(pub u16);
+impl Handle {
+//@@ fn file=fe2o3-amqp-types/src/definitions/mod.rs impl=`impl Default for Handle` name=default id=Handle::default
+//@@ ret Handle
+//@@ spec
+    ensures r.0 == 0xffff_ffffu32,       // [C05.default.specification-default] [C03.default.specification-default] [C11.default.specification-default] begin.handle-max defaults to 4294967295 (part 2, 2.7.2): a peer that leaves the field out means exactly this value, and this end leaves it out only for this value
+//@@ end
+}
+impl Priority {
+//@@ fn file=fe2o3-amqp-types/src/messaging/format/mod.rs impl=`impl Default for Priority` name=default id=Priority::default
+//@@ ret Priority
+//@@ spec
+    ensures r.0 == 4u8,       // [C05.default.specification-default] [C03.default.specification-default] [C01.default.specification-default] header.priority defaults to 4 (part 3, 3.2.1): a peer that leaves the field out means exactly this value, and this end leaves it out only for this value
+//@@ end
+}
+impl MaxFrameSize {
+//@@ fn file=fe2o3-amqp-types/src/performatives/open.rs impl=`impl Default for MaxFrameSize` name=default id=MaxFrameSize::default
+//@@ ret MaxFrameSize
+//@@ spec
+    ensures r.0 == 0xffff_ffffu32,       // [C05.default.specification-default] [C03.default.specification-default] [C06.default.specification-default] open.max-frame-size defaults to 4294967295 (part 2, 2.7.1): a peer that leaves the field out means exactly this value, and this end leaves it out only for this value
+//@@ end
+}
+impl ChannelMax {
+//@@ fn file=fe2o3-amqp-types/src/performatives/open.rs impl=`impl Default for ChannelMax` name=default id=ChannelMax::default
+//@@ ret ChannelMax
+//@@ spec
+    ensures r.0 == 0xffffu16,       // [C05.default.specification-default] [C03.default.specification-default] [C17.default.specification-default] open.channel-max defaults to 65535 (part 2, 2.7.1): a peer that leaves the field out means exactly this value, and this end leaves it out only for this value
+//@@ end
+}
 // ================================================================ TerminusDurability: serde derive on a fieldless enum
-//@@ enumorder file=fe2o3-amqp-types/src/messaging/terminus_durability.rs enum=TerminusDurability `none,configuration,unsettled-state` `[C03.restricted.value-written] [C05.restricted.value-written] AMQP 1.0 part 3, 3.5.5 terminus-durability: 0 = none, 1 = configuration, 2 = unsettled-state`
+//@@ enumorder file=fe2o3-amqp-types/src/messaging/terminus_durability.rs enum=TerminusDurability default=none `none,configuration,unsettled-state` `[C03.restricted.value-written] [C05.restricted.value-written] AMQP 1.0 part 3, 3.5.5 terminus-durability: 0 = none, 1 = configuration, 2 = unsettled-state`
 
 } // verus!
 fn main() {}
